@@ -3124,7 +3124,10 @@ class _Simu(_IObserver, _params.Updatable, ABC):
         return "Unspecified."
 
     def Results_Reshape_values(
-        self, values: _types.FloatArray, nodeValues: bool
+        self,
+        values: _types.FloatArray,
+        nodeValues: bool,
+        storedOnNodes: Optional[bool] = None,
     ) -> _types.FloatArray:
         """Reshapes input values based on whether they are stored at nodes or elements.
 
@@ -3134,6 +3137,9 @@ class _Simu(_IObserver, _params.Updatable, ABC):
             Input values to reshape.
         nodeValues : bool
             If True, the output will represent values at nodes; if False, values on elements will be derived.
+        storedOnNodes : bool, optional
+            Whether the input values are stored at nodes (True) or on elements (False), by default None.\n
+            If None, the storage is guessed from the shape of the values, which is ambiguous for a flat nodal vector (Nn * dof_n,) when Nn * dof_n == Ne.
 
         Returns
         -------
@@ -3154,7 +3160,9 @@ class _Simu(_IObserver, _params.Updatable, ABC):
         # the leading axis of a 2d array identifies the storage when it matches only one of
         # (Nn, Ne): sizes alone are ambiguous (e.g. (Ne, 3) strains with Ne * 3 divisible by Nn)
         n0 = values.shape[0] if values.ndim >= 2 else -1
-        if (n0 == Nn) != (n0 == Ne):
+        if storedOnNodes is not None:
+            onNodes, onElems = storedOnNodes, not storedOnNodes
+        elif (n0 == Nn) != (n0 == Ne):
             onNodes, onElems = n0 == Nn, n0 == Ne
         elif is1d and (values.size == Nn) != (values.size == Ne):
             # a scalar field: its length identifies the storage (Nn % Ne == 0 or Ne % Nn == 0
